@@ -396,3 +396,37 @@ fn s_execution_new_thread() {
     reach!("s_execution_new_thread");
 }
 }
+
+//@ props=C19,C15,C16 tier=quick fns=src/rt/execution.rs::Execution::new,src/rt/thread.rs::Set::new,src/rt/path.rs::Path::new,src/rt/object.rs::Store::with_capacity
+#[kani::proof]
+#[kani::unwind(8)]
+#[kani::stub(std::hash::RandomState::new, crate::rt::thread::verif_kani::fixed_random_state)]
+fn c19_execution_new() {
+    let (mt, mb): (usize, usize) = (kani::any(), kani::any());
+    kani::assume(mt >= 1 && mt <= crate::rt::MAX_THREADS && mb <= 4);
+    let pb: Option<usize> = kani::any();
+    kani::assume(match pb { Some(b) => b <= u8::MAX as usize, None => true });
+    let expl: bool = kani::any();
+    let ex = ManuallyDrop::new(Execution::new(mt, mb, pb, expl));
+    let p = pv::path_view(&ex.path);
+    oblige!("C19.new.limits_recorded", ex.max_threads == mt && ex.threads.max() >= mt && p.cap >= mb);
+    oblige!("C15.new.preemption_bound_recorded", p.bound == pb.map(|b| b as u8));
+    oblige!("C19.new.exploring_flag_recorded", p.exploring == expl && p.exploring_on_start == expl && !p.skipping && p.pos == 0 && p.len == 0);
+    let s = tv::set_view(&ex.threads);
+    oblige!("C16.new.initial_state_is_one_fresh_main_thread", s.len == 1 && s.active == Some(0)
+        && s.th[0].st == (tv::StView::Runnable { unparked: false }) && vvk::eq(&s.th[0].causality, &vvk::zero_vv())
+        && vvk::eq(&s.seq_cst, &vvk::zero_vv()) && crate::rt::object::verif_kani::store_len(&ex.objects) == 0
+        && ex.raw_allocations.is_empty() && ex.arc_objs.is_empty() && ex.threads.execution_id() == ex.id);
+    reach!("c19_execution_new");
+}
+
+//@ props=C15,C19 tier=quick fns=src/rt/execution.rs::Execution::new expect_panic=unwrap_failed
+#[kani::proof]
+#[kani::unwind(8)]
+#[kani::stub(std::hash::RandomState::new, crate::rt::thread::verif_kani::fixed_random_state)]
+fn c15_execution_new_rejects_oversized_bound() {
+    let pb: usize = kani::any();
+    kani::assume(pb > u8::MAX as usize);
+    let _ = ManuallyDrop::new(Execution::new(2, 2, Some(pb), true));
+    must_not_reach!("C15.new.oversized_preemption_bound_accepted_silently");
+}
